@@ -928,6 +928,11 @@ class Elab:
                         frame[a.asname or a.name] = ClassRef(c)
                     else:
                         fr = [(rel, f) for (rel, n), f in self.facts.functions.items() if n == a.name]
+                        # the module named in the import decides which of several functions of that name is meant
+                        want = (s.module or '').replace('.', '/') + '.py'
+                        pref = [x for x in fr if s.module and (x[0] == want or x[0].endswith('/' + want.split('/')[-1]) and want.split('/')[-1] != '.py')]
+                        exact = [x for x in pref if x[0] == want]
+                        fr = exact or pref or fr
                         if fr:
                             frame[a.asname or a.name] = FuncRef(fr[0][1], None, None, fr[0][0])
                         elif s.module in ('math',):
